@@ -77,6 +77,11 @@ impl RttCalcuator {
     pub fn rto(&self) -> Duration {
         self.rto
     }
+
+    #[cfg(rustun_verif)]
+    pub fn verif_state(&self) -> (Duration, Duration, Duration) {
+        (self.rto, self.srtt, self.rttvar)
+    }
 }
 
 #[cfg(test)]
